@@ -246,6 +246,8 @@ class Builder:
             if n in REDUCTION_METHOD:
                 axis = None if p[0] == NOAXIS else p[0]
                 return getattr(x, REDUCTION_METHOD[n])(axis, bool(p[1]))
+            if n in ("sum2", "amax2"):
+                return getattr(x, "sum" if n == "sum2" else "max")((int(p[0]), int(p[1])), bool(p[2]))
             if n in ("mean", "var", "std"):
                 axis = None if p[0] == NOAXIS else p[0]
                 # (not x.var(...): Lambda has a FIELD named var)
